@@ -22,6 +22,11 @@ run_one() {  # name diff expect out miri(0/1)
   local tests; tests=$(cd "$R" && cargo test --workspace --no-fail-fast --offline 2>&1 | grep -c "^test result: ok. 35 passed")
   local run fired="" errs=""
   if [ -z "$expect" ]; then run="C03 C11 C12 C13 C14 C15 C16 C18"; else run="$expect"; fi
+  if [ -n "${REGR_ONLY:-}" ]; then  # re-run after a change to the machinery of some properties only
+    local keep=""; for id in $run; do case " $REGR_ONLY " in *" $id "*) keep="$keep $id";; esac; done
+    run="$keep"; [ -n "$expect" ] && expect="$(echo $keep)"
+    [ -z "$(echo $run)" ] && return
+  fi
   for id in $run; do
     if [ "$miri" = 1 ] || [ -z "$expect" ]; then unset VERIF_SKIP_MIRI; else export VERIF_SKIP_MIRI=1; fi
     ./check "$id" quick > /tmp/regr${TAG}_$id.log 2>&1; local rc=$?
